@@ -42,6 +42,9 @@
      parse_float_pad   : all_space a -> all_space b -> trimmed s -> parse_float_with f (a ++ s ++ b) = parse_float_with f s
      scale10_Qeq       : scale10 m k == m * 10^k  as rationals;  dec_value_Qeq : dec_value m d == m / 10^d
      read_digits_fixed : the digit-reading lemma, for new formats
+     render_F_raw_token, render_nat_token : the renderings are tokens (hence trimmed: Text.trimmed_token)
+     parse_float_render_F_raw, parse_float_render_nat : parsing the unpadded renderings
+     len_render_F_raw_le / fits_F_bound : |m| < 10^(k+d) -> k+d+2 <= w -> fits_F w d m;  len_render_nat_le, len_digits_fixed
    ================================================================================================== *)
 From Coq Require Import Ascii String List Bool Arith ZArith QArith Lia.
 From Verif Require Import Lib.Text.
@@ -51,9 +54,15 @@ Local Open Scope Z_scope.
 
 (* ------------------------------------------------------------------------------------------ digits *)
 Definition digit_val (c : ascii) : option Z :=
-  let n := nat_of_ascii c in
-  if ((48 <=? n) && (n <=? 57))%nat then Some (Z.of_nat (n - 48)) else None.
-Definition digit_char (d : Z) : ascii := ascii_of_nat (48 + Z.to_nat d).
+  match c with
+  | "0" => Some 0 | "1" => Some 1 | "2" => Some 2 | "3" => Some 3 | "4" => Some 4
+  | "5" => Some 5 | "6" => Some 6 | "7" => Some 7 | "8" => Some 8 | "9" => Some 9
+  | _ => None
+  end%char.
+Definition digit_char (d : Z) : ascii :=
+  match d with
+  | 0 => "0" | 1 => "1" | 2 => "2" | 3 => "3" | 4 => "4" | 5 => "5" | 6 => "6" | 7 => "7" | 8 => "8" | _ => "9"
+  end%char.
 Arguments digit_val : simpl never.
 Arguments digit_char : simpl never.
 Local Arguments is_space : simpl never.
@@ -447,4 +456,98 @@ Proof.
   intros H. unfold scale10. destruct (Z.leb_spec 0 k); [lia|].
   replace (10 ^ (- k)) with (10 ^ Z.of_nat (Z.to_nat (- k))) by (f_equal; lia).
   apply dec_value_Qeq.
+Qed.
+
+(* ------------------------------------------------------------- lengths and tokens of renderings *)
+Lemma len_digits_fixed k v : len (digits_fixed k v) = k.
+Proof. revert v; induction k; intros v; auto. cbn [digits_fixed]. rewrite len_app, IHk. simpl. lia. Qed.
+Lemma ndig_aux_le f : forall v k, (1 <= k)%nat -> 0 <= v < 10 ^ Z.of_nat k -> (ndig_aux f v <= k)%nat.
+Proof.
+  induction f as [|f IH]; intros v k Hk Hv; [simpl; lia|].
+  cbn [ndig_aux]. destruct (Z.ltb_spec v 10); [lia|].
+  destruct k as [|k]; [lia|]. destruct k as [|k].
+  - simpl in Hv. lia.
+  - apply le_n_S. apply IH; [lia|].
+    rewrite Nat2Z.inj_succ, Z.pow_succ_r in Hv by lia.
+    split; [apply Z.div_pos; lia|]. apply Z.div_lt_upper_bound; lia.
+Qed.
+Lemma ndigits_le v k : (1 <= k)%nat -> 0 <= v < 10 ^ Z.of_nat k -> (ndigits v <= k)%nat.
+Proof. apply ndig_aux_le. Qed.
+Lemma len_render_nat v : len (render_nat v) = ndigits v.
+Proof. apply len_digits_fixed. Qed.
+Lemma len_render_nat_le v k : (1 <= k)%nat -> 0 <= v < 10 ^ Z.of_nat k -> (len (render_nat v) <= k)%nat.
+Proof. intros. rewrite len_render_nat. apply ndigits_le; auto. Qed.
+Lemma len_frac_str d a : (len (frac_str d a) <= d + 1)%nat.
+Proof. destruct d; simpl; [lia|]. change (S (len (digits_fixed (S d) a)) <= S d + 1)%nat. rewrite len_digits_fixed. lia. Qed.
+(* |m| < 10^(k+d): the F rendering needs at most k digits, the point, d decimals and a sign *)
+Lemma len_render_F_raw_le d m k :
+  (1 <= k)%nat -> Z.abs m < 10 ^ Z.of_nat (k + d) -> (len (render_F_raw d m) <= k + d + 2)%nat.
+Proof.
+  intros Hk Hm. unfold render_F_raw. rewrite !len_app.
+  assert (Hp : 0 < 10 ^ Z.of_nat d) by (apply Z.pow_pos_nonneg; lia).
+  assert (len (render_nat (Z.abs m / 10 ^ Z.of_nat d)) <= k)%nat.
+  { apply len_render_nat_le; auto. split; [apply Z.div_pos; lia|].
+    apply Z.div_lt_upper_bound; auto. rewrite Nat2Z.inj_add, Z.pow_add_r, Z.mul_comm in Hm by lia. exact Hm. }
+  pose proof (len_frac_str d (Z.abs m)).
+  assert (len (sign_str m) <= 1)%nat by (unfold sign_str; destruct (m <? 0); simpl; lia).
+  lia.
+Qed.
+Lemma fits_F_bound w d m k :
+  (1 <= k)%nat -> Z.abs m < 10 ^ Z.of_nat (k + d) -> (k + d + 2 <= w)%nat -> fits_F w d m.
+Proof. intros. unfold fits_F. pose proof (len_render_F_raw_le d m k). lia. Qed.
+
+Lemma nonspace_token s : s <> "" -> nonspace s = true -> is_token s = true.
+Proof. destruct s; [congruence|]. intros _ H. exact H. Qed.
+Lemma render_nat_nonempty v : render_nat v <> "".
+Proof.
+  intros E. pose proof (len_render_nat v) as L. rewrite E in L. pose proof (ndigits_pos v). simpl in L. lia.
+Qed.
+Lemma render_nat_token v : is_token (render_nat v) = true.
+Proof. apply nonspace_token; [apply render_nat_nonempty|apply nonspace_digits]. Qed.
+Lemma render_F_raw_token d m : is_token (render_F_raw d m) = true.
+Proof.
+  apply nonspace_token.
+  - intros E. assert (L : len (render_F_raw d m) = 0%nat) by (rewrite E; reflexivity).
+    unfold render_F_raw in L. rewrite !len_app, len_render_nat in L.
+    pose proof (ndigits_pos (Z.abs m / 10 ^ Z.of_nat d)). lia.
+  - unfold render_F_raw. rewrite !nonspace_app, nonspace_sign, nonspace_frac. unfold render_nat. rewrite nonspace_digits. reflexivity.
+Qed.
+Lemma render_F_0 d m : render_F 0 d m = render_F_raw d m.
+Proof. reflexivity. Qed.
+Lemma parse_float_render_F_raw allowD d m : parse_float_with allowD (render_F_raw d m) = Some (dec_value m d).
+Proof. rewrite <- render_F_0. apply parse_render_F_with. Qed.
+Lemma render_F_raw_0_nat v : 0 <= v -> render_F_raw 0 v = render_nat v.
+Proof.
+  intros H. unfold render_F_raw, sign_str. destruct (Z.ltb_spec v 0); [lia|].
+  rewrite Z.abs_eq, Z.pow_0_r, Z.div_1_r by lia. simpl. apply Text.app_nil_r.
+Qed.
+Lemma parse_float_render_nat allowD v : 0 <= v -> parse_float_with allowD (render_nat v) = Some (v # 1)%Q.
+Proof. intros H. rewrite <- render_F_raw_0_nat by auto. apply parse_float_render_F_raw. Qed.
+
+Lemma ndigits_exact v k : (1 <= k)%nat -> 10 ^ (Z.of_nat k - 1) <= v < 10 ^ Z.of_nat k -> ndigits v = k.
+Proof.
+  intros Hk [Hlo Hhi].
+  assert (H0 : 0 <= v) by (pose proof (Z.pow_nonneg 10 (Z.of_nat k - 1)); lia).
+  pose proof (ndigits_le v k Hk (conj H0 Hhi)) as Hle.
+  pose proof (ndigits_bound v H0) as Hb. pose proof (ndigits_pos v) as Hp.
+  destruct (Nat.eq_dec (ndigits v) k) as [|Hne]; auto. exfalso.
+  assert (10 ^ Z.of_nat (ndigits v) <= 10 ^ (Z.of_nat k - 1)) by (apply Z.pow_le_mono_r; lia).
+  lia.
+Qed.
+Lemma strip_digits_fixed k v : (1 <= k)%nat -> strip (digits_fixed k v) = digits_fixed k v.
+Proof.
+  intros Hk. apply strip_trimmed, trimmed_token, nonspace_token; [|apply nonspace_digits].
+  intros E. pose proof (len_digits_fixed k v) as L. rewrite E in L. simpl in L. lia.
+Qed.
+Lemma parse_int_digits_fixed k v : (1 <= k)%nat -> parse_int (digits_fixed k v) = Some (v mod 10 ^ Z.of_nat k).
+Proof.
+  intros Hk. unfold parse_int. rewrite strip_digits_fixed by auto.
+  rewrite sign_split_head_ok by (apply head_ok_digits; auto).
+  rewrite <- (Text.app_nil_r (digits_fixed k v)), read_digits_fixed. simpl.
+  destruct k; [lia|]. reflexivity.
+Qed.
+Lemma parse_int_render_nat v : 0 <= v -> parse_int (render_nat v) = Some v.
+Proof.
+  intros H. unfold render_nat. rewrite parse_int_digits_fixed by apply ndigits_pos.
+  rewrite Z.mod_small; auto. split; auto. apply ndigits_bound; auto.
 Qed.
